@@ -82,6 +82,7 @@ class Engine:
         self.n_errors = 0
         self.frontier = []
         self.deadline = None
+        self._decl = {}  # (name, domain) -> (term, constraint, proxy): z3 terms are reused across paths
         self._reset_path(())
 
     # ------------------------------------------------------------------ path state
@@ -96,6 +97,8 @@ class Engine:
         self.violations = []
         self.observed = None
         self.realized = {}  # z3 ast id -> python value
+        self._keep = []  # keeps decided/realised terms alive so that ast ids stay unique on the path
+        self.decided = {}  # z3 ast id -> bool (conditions already decided on this path)
         self.path_checks = 0
 
     def _check(self, *extra):
@@ -126,6 +129,10 @@ class Engine:
         """Fork point: cond is a z3 Bool."""
         if self.deadline is not None and time.monotonic() > self.deadline:
             raise BudgetExceeded()
+        cid = cond.get_id()
+        hit = self.decided.get(cid)
+        if hit is not None:
+            return hit
         i = self.pos
         self.pos += 1
         self.n_decisions += 1
@@ -133,11 +140,13 @@ class Engine:
             d = self.prefix[i]
             if d[0] == "f":
                 self.trace.append(d)
+                self.decided[cid] = d[1]; self._keep.append(cond)
                 return d[1]
             if d[0] != "b":
                 raise Diverged("decision %d: expected %s, met branch" % (i, d[0]))
             self._add(cond if d[1] else z3.Not(cond))
             self.trace.append(d)
+            self.decided[cid] = d[1]; self._keep.append(cond)
             return d[1]
         m = self.get_model()
         v = m.eval(cond, model_completion=True)
@@ -150,6 +159,8 @@ class Engine:
             b = r == z3.sat
         other = z3.Not(cond) if b else cond
         r = self._check(other)
+        self.decided[cid] = b
+        self._keep.append(cond)
         if r == z3.unsat:
             self.trace.append(("f", b))
             return b
@@ -170,6 +181,7 @@ class Engine:
             return self.realized[key]
         if z3.is_int_value(term) or z3.is_rational_value(term) or z3.is_true(term) or z3.is_false(term):
             return pyval(term)
+        self._keep.append(term)
         i = self.pos
         self.pos += 1
         self.n_realize += 1
@@ -218,58 +230,69 @@ class Engine:
             raise ValueError("duplicate input " + name)
         self.inputs[name] = (term, kind)
 
+    def _cached(self, key, build):
+        hit = self._decl.get(key)
+        if hit is None:
+            hit = self._decl[key] = build()
+        term, cons, kind, proxy = hit
+        self._declare(key[0], term, kind)
+        if cons is not None:
+            self._add(cons)
+        return proxy
+
     def int(self, name, lo, hi):
-        t = z3.Int(name)
-        self._declare(name, t, "int")
-        self._add(z3.And(t >= lo, t <= hi))
-        return P.SymInt(t)
+        def build():
+            t = z3.Int(name)
+            return t, z3.And(t >= lo, t <= hi), "int", P.SymInt(t)
+
+        return self._cached((name, "int", lo, hi), build)
 
     def bool(self, name):
-        t = z3.Bool(name)
-        self._declare(name, t, "bool")
-        # mention it so that it is part of every model
-        self._add(z3.Or(t, z3.Not(t)))
-        return P.SymBool(t)
+        def build():
+            t = z3.Bool(name)
+            # mention it so that it is part of every model
+            return t, z3.Or(t, z3.Not(t)), "bool", P.SymBool(t)
+
+        return self._cached((name, "bool"), build)
 
     def choice(self, name, options):
         """A value from a finite list of python values: all str (-> SymStr), all int (-> SymInt) or numbers
         with halves (-> SymFloat)."""
-        options = list(options)
-        if all(isinstance(o, str) for o in options):
-            t = z3.Int(name)
-            self._declare(name, t, ("str", tuple(options)))
-            self._add(z3.Or([t == self.aidx[o] for o in options]))
-            return P.SymStr(t)
+        options = tuple(options)
         if all(isinstance(o, bool) for o in options):
             if len(set(options)) == 2:
                 return self.bool(name)
             return options[0]
-        if all(isinstance(o, int) and not isinstance(o, bool) for o in options):
+
+        def build():
+            if all(isinstance(o, str) for o in options):
+                t = z3.Int(name)
+                return t, z3.Or([t == self.aidx[o] for o in options]), ("str", options), P.SymStr(t)
+            if all(isinstance(o, int) and not isinstance(o, bool) for o in options):
+                t = z3.Int(name)
+                return t, z3.Or([t == o for o in options]), "int", P.SymInt(t)
+            # floats: store twice the value as an integer variable
             t = z3.Int(name)
-            self._declare(name, t, "int")
-            self._add(z3.Or([t == o for o in options]))
-            return P.SymInt(t)
-        # floats: store twice the value as an integer variable
-        t = z3.Int(name)
-        self._declare(name, t, "half")
-        dbl = []
-        for o in options:
-            d = Fraction(o) * 2
-            if d.denominator != 1:
-                raise ValueError("only multiples of 1/2")
-            dbl.append(int(d))
-        self._add(z3.Or([t == d for d in dbl]))
-        return P.SymFloat(z3.ToReal(t) / 2)
+            dbl = []
+            for o in options:
+                d = Fraction(o) * 2
+                if d.denominator != 1:
+                    raise ValueError("only multiples of 1/2")
+                dbl.append(int(d))
+            return t, z3.Or([t == d for d in dbl]), "half", P.SymFloat(z3.ToReal(t) / 2)
+
+        return self._cached((name, "choice", options), build)
 
     def perm(self, name, n):
         """A permutation of range(n) as a list of SymInt."""
-        ts = [z3.Int("%s_%d" % (name, i)) for i in range(n)]
-        for i, t in enumerate(ts):
-            self._declare("%s_%d" % (name, i), t, "int")
-            self._add(z3.And(t >= 0, t < n))
+        ps = [self.int("%s_%d" % (name, i), 0, n - 1) for i in range(n)]
         if n > 1:
-            self._add(z3.Distinct(*ts))
-        return [P.SymInt(t) for t in ts]
+            key = (name, "distinct", n)
+            c = self._decl.get(key)
+            if c is None:
+                c = self._decl[key] = z3.Distinct(*[p.t for p in ps])
+            self._add(c)
+        return ps
 
     def assume(self, cond):
         c = P.term_bool(cond)
